@@ -131,6 +131,8 @@ def run(ctx):
         heads = loop_heads(f)
         sa = agg_blocks(f, W, "SetAttachment")
         for dname in cascading:
+            if dname not in partner:
+                continue  # an op that newly cascades is already reported by `cascading-ops` above
             for d in agg_blocks(f, W, dname):
                 ups = agg_blocks(f, W, partner[dname])
                 w = f.path([d], ups, avoid_blocks=heads)
